@@ -4,7 +4,8 @@ G: TLC enumerates every configuration of spec/darklua/Pipeline.tla (all sequence
    its property variants, x 3 generators x column spans 0 / 1 / 80) and model-checks the lifecycle acceptance theorems.
    Base programs come from the other TLC enumerations (RuleCases, Positions, Trivia) and the repository corpus.
 R: dlv robust runs (a) the parser alone on every truncation of the base programs, on seeded byte mutations, with
-   multi-byte characters inserted at token boundaries, and on nesting ladders; (b) the whole pipeline for sampled
+   multi-byte characters inserted at token boundaries and at every offset of every lexical template enumerated by TLC
+   from spec/darklua/Multibyte.tla (these also through the three generators), and on nesting ladders; (b) the whole pipeline for sampled
    (configuration, program) pairs; each run under catch_unwind and a watchdog, recording its lifecycle events.
 V: TLC (LifecycleTrace) accepts a run only if its events are a behaviour of Pipeline!Life: an error VALUE naming
    the file, or an output that parses again -- never a panic, a hang, a partial result."""
@@ -136,6 +137,22 @@ def run(tier):
     for d in ([5, 20, 60, 100] if tier == "quick" else [5, 10, 20, 40, 60, 80, 100, 120]):
         for ni, p in enumerate(nesting(d)):
             cases.append({"id": "n%d_%d" % (d, ni), "mode": "parse", "src": p, "label": "nesting%d" % d, "generator": "", "rules": []})
+    # (a') multi-byte characters at EVERY offset of every lexical template (TLC enumerates Multibyte!Text), parser alone
+    #      and the whole pipeline under the three generators (the token-based generator re-reads comments and strings)
+    mb = tlc("mc/MC_Multibyte", workers=4, timeout=600, xmx="2g")
+    tlc_ok(mb, "MC_Multibyte")
+    mbs = mb.tagged("MB")
+    if len(mbs) < 400:
+        raise vlib.ToolError("MC_Multibyte emitted only %d texts" % len(mbs))
+    chars = MULTI[:3] if tier == "quick" else MULTI
+    for m in mbs:
+        for ci, ch in enumerate(chars):
+            src = m["src"].replace("@", ch)
+            mid = "b%d_%d_%d" % (m["t"], m["k"], ci)
+            cases.append({"id": mid, "mode": "parse", "src": src, "label": "multibyte-offsets", "generator": "", "rules": []})
+            for gi, gen in enumerate(("retain_lines", "dense:80", "readable:1")):
+                for ri, rules in enumerate(([], ["'remove_spaces'"]) if tier == "quick" else ([], ["'remove_spaces'"], ["'remove_comments'", "'compute_expression'"])):
+                    cases.append({"id": "%s_g%d_r%d" % (mid, gi, ri), "mode": "process", "src": src, "label": "multibyte-offsets", "generator": gen, "rules": rules})
     # (b) whole pipeline
     npairs = 6000 if tier == "quick" else 90000
     for k in range(npairs):
@@ -165,7 +182,7 @@ def run(tier):
             c = by[cid]
             src = c.get("src") if "src" in c else bytes(c["srcb"]).decode("utf-8", "replace")
             sig = {"kind": ver["last"], "stage": "parse" if c["mode"] == "parse" else "process", "label": c["label"], "generator": c["generator"],
-                   "rules": [r.strip("'") for r in c["rules"]], "msg": o.get("msg", "")[:160], "src_excerpt": src[:160]}
+                   "rules": [r.strip("'") for r in c["rules"]], "msg": o.get("msg", "")[:160], "loc": o.get("loc", ""), "src_excerpt": src[:160]}
             rep.violation(sig, dict(c))
     parsed = sum(n for k, n in counts.items() if k.endswith("reparse_ok"))
     if parsed < len(cases) // 10:
@@ -192,8 +209,11 @@ def replay(path, tier):
     op = run_driver(rep.wd, "replay", [c])
     v = tlc("trace/LifecycleTrace", workers=1, timeout=600, env={"OBS": op})
     tlc_ok(v, "LifecycleTrace")
+    obs = {o["id"]: o for o in read_ndjson(op)}
     for ver in v.tagged("VERDICT"):
         if not ver["ok"]:
-            rep.violation({"kind": ver["last"], "stage": "parse" if c["mode"] == "parse" else "process", "label": c.get("label", "")}, c)
+            o = obs.get(ver["id"], {})
+            rep.violation({"kind": ver["last"], "stage": "parse" if c["mode"] == "parse" else "process", "label": c.get("label", ""),
+                           "msg": o.get("msg", "")[:160], "loc": o.get("loc", "")}, c)
     rep.coverage.update({"evaluations": 1, "distinct_nontrivial": 2, "rule": "replay", "samples": [c.get("label", "")]})
     return rep.finish()
